@@ -197,7 +197,7 @@ def explore(ck, binp, seed, ncases, model_ok, first):
 
 
 def run(ck):
-    ncases = 2600 if not ck.thorough else 24000
+    ncases = 3100 if not ck.thorough else 24500
     ck.gen()
     built = ck.coq_make(MODEL + PROOFS, clean=ck.thorough)
     ck.obligations = ck.count_statements(STATEMENT_FILES)
